@@ -2,7 +2,7 @@
 """seedkeep.py ID K 'RESULT line' : archive a confirmed seeded change under /verif/seeded/ID-K/"""
 import json, os, shutil, sys, re
 pid, k, result = sys.argv[1], sys.argv[2], sys.argv[3]
-src = f"/tmp/seedout-{pid}/{k}" if not k.startswith("r2-") else f"/tmp/seedout2-{pid}/{k[3:]}"
+src = f"/tmp/seedout-{pid}/{k}" if not k.startswith(("r2-", "r3-")) else f"/tmp/seedout{k[1]}-{pid}/{k[3:]}"
 dst = f"/verif/seeded/{pid}-{k}"
 os.makedirs(dst, exist_ok=True)
 for f in ("patch.diff", "demo_test.go"):
